@@ -5,21 +5,24 @@ V = os.path.dirname(os.path.abspath(__file__))
 props = json.load(open(os.path.join(V, "props.json")))
 allp = [json.loads(l)["id"] for l in open(os.path.join(V, "properties.jsonl"))]
 NOT_DECIDED = {
- "C01": "interleavings; Table::get trusted; lock contents frozen during one Snapshot::get; backward scan filter only bounded",
- "C02": "power-loss model beyond a torn last record, crashes INSIDE an operation, concurrent committers",
+ "C01": "interleavings; Table::get trusted; lock contents frozen during one Snapshot::get; the k-way merge below the scan filters only bounded",
+ "C02": "power-loss model beyond a torn last record, crashes INSIDE an operation, concurrent committers; components of the flush / start-up protocols are opaque",
  "C03": "crash inside flush / manifest switch / compaction; replay_wal itself only bounded",
  "C04": "interleavings of several committers (pipeline contract is sequential); F6 open",
- "C05": "real concurrency (apply order vs WAL order); publication protocol only sequentially",
+ "C05": "real concurrency (apply order vs WAL order); publication protocol and dequeue_applied only sequentially",
  "C06": "partition_point search (window assumed well-formed); metamorphic equality only via drivers",
- "C07": "crash inside an operation",
+ "C07": "crash inside an operation; CoreInner::new (manifest load order) only via drivers",
  "C08": "longer programs, byte edge cases; only Transaction::commit is under contract",
- "C09": "k-way merge and backward filter only bounded: > 3 keys, > 3 cursor calls, several tables per level, block boundaries",
- "C10": "history cursor barrier logic and B+tree index only bounded; F21 open",
- "C11": "GC predicate, VLog internals",
+ "C09": "k-way merge only bounded: > 3 keys, > 3 cursor calls, several tables per level, block boundaries",
+ "C10": "backward path of the history cursor, Transaction::get_at and the B+tree index back end only bounded",
+ "C11": "GC predicate text (closure), VLog::append (rotation, locks), readers racing with clean-up",
  "C12": "writer/reader round-trip as a LEMMA (bounded by log_enum instead), compression",
  "C13": "block / index cursors and bloom filter only bounded",
+ "C14": "checkpoint creation and the file copy; components of the restore protocol are opaque; readers concurrent with a restore",
+ "C15": "faults outside the WAL (table, manifest, value log), short writes; F25 open; partial effects of a failing memtable apply",
  "C16": "CRC detection capability (assumed)",
- "C18": "everything (no contract); page leaks, free list, merges",
+ "C18": "tree-level algorithms (split, merge, redistribution, overflow chains, allocate_page): sampled by the driver only",
+ "C19": "other processes, process death; that the store takes the lock before touching anything: driver only",
 }
 rows = ["| Prop | Level | Units (Verus) | Kani complete | Bounded drivers (tier) | Not decided |", "|---|---|---|---|---|---|"]
 for p in allp:
